@@ -115,6 +115,16 @@ CHECKS = {
              "Random sequences up to 25 operations and a shared-Context check (two registries, re-entry with other parameters) complete it.",
         note="One known finding (base-units cache across context stacks) is excluded by construction and counted. Units defined while a redefining context is active are C13's clause.",
         design="5/C12"),
+    "C13": dict(
+        technique="model-based (stateful) testing with Hypothesis operation sequences: every answer of a long-lived registry is compared with the answer of a twin built fresh from the declarative state (differential against a fresh registry), each question put to an untouched copy of the twin; registry-isolation differential",
+        text="Random histories of up to 30 steps mix 18 kinds of read-only questions (conversions, unit/expression parsing incl. case-insensitive calls, root and "
+             "base units with and without explicit system, dimensionality, compatible units per group/system, formatting, to_compact, to_base_units, long-lived "
+             "objects, group and system members) with state changes (define unit/prefix/alias, enable/disable rule and redefining contexts, default_system incl. "
+             "None, group edits, building and using a second registry). After each state change a twin is built from the definition text plus the logged "
+             "definitions and settings; subject and twin must agree on every answer, and a brand-new registry replays the final state. A second tier does the "
+             "same on the bundled registry (contexts and systems), a third checks that nothing done to a second registry changes the first.",
+        note="Four known findings are excluded by construction/narrow class: units from define() missing in compatible-unit listings, definitions made inside a redefining context, base-units cache across context stacks, double prefixes. Deep copy is used to hand every question an untouched twin.",
+        design="5/C13"),
     "C20": dict(
         technique="complete enumeration of an independently curated table of ~260 standard values x spellings x {Fraction, float} registries (differential oracle: the table)",
         text="Each entry of data/standards.txt (SI and binary prefixes, SI units, defining constants, yard/pound multiples, US/imperial capacity, avoirdupois/"
